@@ -191,13 +191,12 @@ Proof.
                    | sproj; first [reflexivity | symmetry; apply upd_same; exact Hn] | sproj; no_write ]);
                 [ destruct P as [P | (sk & P)]; [left; exact P | simpl in P; rewrite ?Hg in P; discriminate P] ]
               | idtac ].
-      destruct P as [P | wX P | hX kX skX P Q | P]; sproj.
-      * left. eauto using pending.
-      * apply finish_unary_nth in P. destruct P as (p0 & P0 & [(E & _) | (E1 & E2)]).
-        -- subst p0. left. eauto using pending.
-        -- inversion E2; subst fr. right. apply Og. reflexivity.
-      * apply nth_upd_cases in P. destruct P as [(-> & -> & _) | (_ & P)]; [simpl in Q; discriminate Q | left; eauto using pending].
-      * in_log P; left; eauto using pending.
+      all: destruct P as [P | wX P | hX kX skX P Q | P]; sproj;
+        [ left; eauto using pending
+        | apply finish_unary_nth in P; destruct P as (p0 & P0 & [(E & _) | (E1 & E2)]);
+          [subst p0; left; eauto using pending | inversion E2; subst fr; right; apply Og; reflexivity]
+        | apply nth_upd_cases in P; destruct P as [(-> & -> & _) | (_ & P)]; [simpl in Q; discriminate Q | left; eauto using pending]
+        | in_log P; left; eauto using pending ].
     + assert (G : pending s fr \/ exists k' sk, h_pc k' = HInSend fr sk /\ (k' = k \/ fid fr = fid (h_req k))).
       { destruct o; try destruct (h_hsent k) eqn:Hs;
           (eapply pend_upd_h in P; [ | sproj; reflexivity | sproj; reflexivity | sproj; try reflexivity | sproj; no_write ]);
@@ -237,3 +236,379 @@ Proof. apply lrun_inv; [intros; apply O_ext; auto | intros; eapply O_int; eauto 
 Theorem srv_write_origin nw ls s fr : Server.lrun (init_n nw) ls = Some s ->
   In (SvWrite fr) (Server.log s) -> exists rq, In (SvRead rq) (Server.log s) /\ fid rq = fid fr.
 Proof. intros H Hw. apply (o_pend _ (O_reach _ _ _ H)). apply PLog. exact Hw. Qed.
+
+(* ---------- sff: no fault injected, no failure flag set ---------- *)
+Definition flags (v : Server.state) : list bool :=
+  [inbox_failed v; wfail v; wblock v; srv_stop v; serve_ctx v; conn_cancel v; exit_cancel v].
+Definition sff (v : Server.state) : Prop := flags v = [false; false; false; false; false; false; false].
+
+Lemma sff_fields v : sff v ->
+  inbox_failed v = false /\ wfail v = false /\ wblock v = false /\ srv_stop v = false /\ serve_ctx v = false /\
+  conn_cancel v = false /\ exit_cancel v = false /\ hctx_done v = false /\ cctx_done v = false.
+Proof.
+  unfold sff, flags, hctx_done, cctx_done. intros H. injection H as E1 E2 E3 E4 E5 E6 E7.
+  rewrite E1, E2, E3, E4, E5, E6, E7. repeat split; reflexivity.
+Qed.
+
+Lemma flags_stream_dispatch s f : flags (stream_dispatch s f) = flags s.
+Proof.
+  unfold stream_dispatch. destruct (find_reg (fid f) (hs s) 0) as [h|].
+  - destruct (is_rst f); [destruct (nth_error (hs s) h)|]; reflexivity.
+  - destruct (is_rst f); [reflexivity|]. destruct (has_body f); [reflexivity|]. destruct (has_trl f); [reflexivity|].
+    destruct (md_bad f); reflexivity.
+Qed.
+
+Lemma flags_start_unary s w f : flags (start_unary s w f) = flags s.
+Proof. unfold start_unary. destruct (negb (has_hdr f)); [reflexivity|]. destruct (md_bad f); [reflexivity|]. destruct (body_tok f <? 0); reflexivity. Qed.
+
+Lemma flags_hstep s h k o : flags (hstep s h k o) = flags s.
+Proof. unfold hstep. destruct (h_unary k), o; try destruct (h_hsent k); reflexivity. Qed.
+
+Ltac sff_tac F :=
+  let X := fresh in
+  pose proof (sff_fields _ F) as X; destruct X as (?F1 & ?F2 & ?F3 & ?F4 & ?F5 & ?F6 & ?F7 & ?F8 & ?F9);
+  unfold hdone in *;
+  repeat match goal with
+         | E : ?a = true, E' : ?a = false |- _ => rewrite E in E'; discriminate E'
+         | E : (?a || ?b) = true, E1 : ?a = false, E2 : ?b = false |- _ => rewrite E1, E2 in E; discriminate E
+         end;
+  first [ unfold sff in *; rewrite <- F; unfold flags; sproj; reflexivity | idtac ].
+
+Lemma sff_int s i s' : sff s -> rule_of i s = Some s' -> sff s'.
+Proof.
+  intros F H. destruct i; simpl in H.
+  all: try solve [ start_rule H; sff_tac F ].
+  - unfold r_rd_read in H. destruct (rd s) eqn:Erd; try discriminate.
+    destruct (Server.inbox s) as [|fr0 rest] eqn:Ei.
+    + destr_in H; inv_some H; sff_tac F.
+    + destruct (dispatch fr0); inv_some H; try (sff_tac F).
+      unfold sff. rewrite flags_stream_dispatch. exact F.
+  - unfold r_rd_offer in H. destruct (rd s) eqn:Erd; try discriminate.
+    destruct (find_idle (wk s) 0) as [w|]; [|discriminate]. inv_some H.
+    unfold sff. rewrite flags_start_unary. exact F.
+Qed.
+
+Definition env_ok (a : Server.act) : bool := match a with AHandlerStep _ _ | Server.ADeliver _ => true | _ => false end.
+
+Lemma sff_ext s a : sff s -> env_ok a = true -> sff (Server.ext s a).
+Proof.
+  intros F Ha. destruct a; try discriminate Ha; simpl.
+  - exact F.
+  - destruct (nth_error (hs s) h) as [k|]; [|exact F]. destruct (h_pc k); try exact F.
+    unfold sff. rewrite flags_hstep. exact F.
+Qed.
+
+Lemma sff_init nw : sff (init_n nw).
+Proof. reflexivity. Qed.
+
+Lemma in_sreads' f l : In (SvRead f) l -> In f (sreads l).
+Proof.
+  induction l as [|x l IH]; simpl; [tauto|]. intros [H | H].
+  - subst x. simpl. auto.
+  - destruct x; simpl; auto.
+Qed.
+
+(* ---------- T: every unary request read is on offer, at a live handler, or answered ---------- *)
+Definition rpend (v : Server.state) (fr : frame) : Prop :=
+  wr v = WrWrite fr \/ (exists w, nth_error (wk v) w = Some (WkHand fr)) \/ In (SvWrite fr) (Server.log v).
+
+Record T (v : Server.state) : Prop := mkT {
+  t_na : forall h k, nth_error (hs v) h = Some k -> h_unary k = true -> h_pc k = HGate \/ h_pc k = HDead;
+  t_run : forall h k, nth_error (hs v) h = Some k -> h_unary k = true -> h_pc k = HGate -> exists w, nth_error (wk v) w = Some (WkRun h);
+  t_req : forall rq, In (SvRead rq) (Server.log v) -> dispatch rq = DUnary ->
+            (exists fr0, rd v = RdOffer fr0 /\ fid fr0 = fid rq) \/
+            (exists h k, nth_error (hs v) h = Some k /\ h_unary k = true /\ fid (h_req k) = fid rq /\ h_pc k = HGate) \/
+            (exists fr, rpend v fr /\ fid fr = fid rq) }.
+
+Definition uh_fwd (s s' : Server.state) : Prop :=
+  forall h k, nth_error (hs s) h = Some k -> h_unary k = true ->
+    exists k', nth_error (hs s') h = Some k' /\ h_unary k' = true /\ h_pc k' = h_pc k /\ h_req k' = h_req k.
+Definition uh_bwd (s s' : Server.state) : Prop :=
+  forall h k', nth_error (hs s') h = Some k' -> h_unary k' = true ->
+    exists k, nth_error (hs s) h = Some k /\ h_unary k = true /\ h_pc k' = h_pc k.
+Definition run_fwd (s s' : Server.state) : Prop :=
+  forall w h, nth_error (wk s) w = Some (WkRun h) -> nth_error (wk s') w = Some (WkRun h).
+Definition rpend_fwd (s s' : Server.state) : Prop := forall fr, rpend s fr -> rpend s' fr.
+
+Lemma T_from_old s s' :
+  T s -> rpend_fwd s s' -> uh_fwd s s' -> uh_bwd s s' -> run_fwd s s' ->
+  (exists evs, Server.log s' = Server.log s ++ evs /\ sreads evs = []) ->
+  (forall fr0, rd s = RdOffer fr0 -> rd s' = RdOffer fr0) -> T s'.
+Proof.
+  intros [Tn Tr Tq] PF UF UB RF (evs & E & R) HO. constructor.
+  - intros h k' Hn U. destruct (UB _ _ Hn U) as (k & Hk & Uk & ->). eauto.
+  - intros h k' Hn U Hg. destruct (UB _ _ Hn U) as (k & Hk & Uk & Ep). rewrite Ep in Hg.
+    destruct (Tr _ _ Hk Uk Hg) as (w & Hw). exists w. apply RF. exact Hw.
+  - intros rq Hin Hd. rewrite E in Hin. apply in_app_or in Hin. destruct Hin as [Hin | Hin].
+    + destruct (Tq _ Hin Hd) as [(fr0 & A & B) | [(h & k & A & B & C & D) | (fr & A & B)]].
+      * left. exists fr0. split; auto.
+      * right. left. destruct (UF _ _ A B) as (k' & A' & B' & C' & D'). exists h, k'. repeat split; auto; congruence.
+      * right. right. exists fr. split; auto.
+    + exfalso. assert (X : In rq (sreads evs)) by (apply in_sreads'; exact Hin). rewrite R in X. destruct X.
+Qed.
+
+Lemma nth_upd_fwd {A} (l : list A) g x h y : nth_error l h = Some y -> h <> g -> nth_error (upd g x l) h = Some y.
+Proof. intros H Hne. rewrite nth_upd. destruct (Nat.eqb_spec g h); [congruence | exact H]. Qed.
+
+Ltac rpend_fwd_tac :=
+  let fr := fresh "fr" in let P := fresh "P" in let wX := fresh "wX" in
+  intros fr [P | [(wX & P) | P]]; unfold rpend; sproj;
+  [ (* was in the writer's hand *)
+    first [ left; exact P
+          | exfalso; congruence
+          | right; right; repeat (apply in_or_app; right); simpl; left; congruence ]
+  | (* was in a worker's hand *)
+    first [ right; left; exists wX; exact P
+          | match goal with E : nth_error (wk ?s) ?w = Some _ |- _ =>
+              destruct (Nat.eq_dec wX w) as [->|?];
+              [ first [ exfalso; congruence | left; congruence ]
+              | right; left; exists wX; apply nth_upd_fwd; assumption ]
+            end ]
+  | right; right; repeat (apply in_or_app; left); exact P ].
+
+Ltac run_fwd_tac :=
+  let w := fresh "wY" in let h := fresh "hY" in let P := fresh "PY" in
+  intros w h P; sproj;
+  first [ exact P
+        | match goal with E : nth_error (wk ?s) ?w0 = Some _ |- _ =>
+            destruct (Nat.eq_dec w w0) as [->|?];
+            [ rewrite E in P; discriminate P | apply nth_upd_fwd; assumption ]
+          end ].
+
+(* a rule that updates a handler whose program counter is one a unary handler never has *)
+Ltac uh_fwd_tac HT :=
+  let h := fresh "hY" in let k := fresh "kY" in let P := fresh "PY" in let U := fresh "UY" in
+  intros h k P U; sproj;
+  first [ exists k; repeat split; auto; fail
+        | match goal with E : nth_error (hs ?s) ?h0 = Some ?k0 |- _ =>
+            destruct (Nat.eq_dec h h0) as [->|?];
+            [ rewrite E in P; inversion P; subst;
+              first [ eexists; split; [apply nth_upd_same; eapply nth_error_lt; eassumption|]; simpl; repeat split; auto; fail
+                    | exfalso; destruct (t_na _ HT _ _ E U) as [X|X]; congruence ]
+            | exists k; split; [apply nth_upd_fwd; assumption | auto] ]
+          end ].
+
+Ltac uh_bwd_tac HT :=
+  let h := fresh "hY" in let k := fresh "kY" in let P := fresh "PY" in let U := fresh "UY" in
+  intros h k P U; sproj;
+  first [ exists k; repeat split; auto; fail
+        | apply nth_upd_cases in P; destruct P as [(-> & -> & _) | (_ & P)];
+          [ simpl in U;
+            match goal with E : nth_error (hs ?s) ?h0 = Some ?k0 |- _ =>
+              first [ exists k0; repeat split; auto; fail
+                    | exfalso; destruct (t_na _ HT _ _ E U) as [X|X]; congruence ]
+            end
+          | exists k; auto ] ].
+
+Ltac log_noread := sproj; first [ exists []; split; [rewrite app_nil_r; reflexivity | reflexivity]
+                                | eexists; split; [rewrite <- ?app_assoc; reflexivity | reflexivity] ].
+Ltac offer_fwd := sproj; intros ? E; first [ exact E | congruence | (rewrite E in *; discriminate) ].
+
+Lemma T_from_step s s' :
+  T s -> rpend_fwd s s' -> uh_fwd s s' -> uh_bwd s s' -> run_fwd s s' ->
+  (exists evs, Server.log s' = Server.log s ++ evs) ->
+  (forall rq, In (SvRead rq) (Server.log s') -> dispatch rq = DUnary ->
+     In (SvRead rq) (Server.log s) \/ (exists fr0, rd s' = RdOffer fr0 /\ fid fr0 = fid rq)) ->
+  (forall fr0, rd s = RdOffer fr0 -> rd s' = RdOffer fr0) -> T s'.
+Proof.
+  intros [Tn Tr Tq] PF UF UB RF (evs & E) HN HO. constructor.
+  - intros h k' Hn U. destruct (UB _ _ Hn U) as (k & Hk & Uk & ->). eauto.
+  - intros h k' Hn U Hg. destruct (UB _ _ Hn U) as (k & Hk & Uk & Ep). rewrite Ep in Hg.
+    destruct (Tr _ _ Hk Uk Hg) as (w & Hw). exists w. apply RF. exact Hw.
+  - intros rq Hin Hd. destruct (HN _ Hin Hd) as [Hold | Hnew]; [|left; exact Hnew].
+    destruct (Tq _ Hold Hd) as [(fr0 & A & B) | [(h & k & A & B & C & D) | (fr & A & B)]].
+    + left. exists fr0. split; auto.
+    + right. left. destruct (UF _ _ A B) as (k' & A' & B' & C' & D'). exists h, k'. repeat split; auto; congruence.
+    + right. right. exists fr. split; auto.
+Qed.
+
+Ltac uh_app_fwd := let h := fresh in let k := fresh in let P := fresh in let U := fresh in
+  intros h k P U; sproj; exists k; split; [rewrite nth_error_app1; [exact P | eapply nth_error_lt; eassumption] | auto].
+
+Lemma T_stream_dispatch s fr0 : sff s -> T s -> rd s = RdRead -> T (stream_dispatch s fr0).
+Proof.
+  intros F HT Erd. unfold stream_dispatch.
+  destruct (find_reg (fid fr0) (hs s) 0) as [h|].
+  - destruct (is_rst fr0).
+    + destruct (nth_error (hs s) h) as [k|] eqn:Hn; [|exact HT].
+      apply (T_from_old s); [exact HT | rpend_fwd_tac | uh_fwd_tac HT | uh_bwd_tac HT | run_fwd_tac | log_noread | offer_fwd].
+    + apply (T_from_old s); [exact HT | rpend_fwd_tac | uh_fwd_tac HT | uh_bwd_tac HT | run_fwd_tac | log_noread | offer_fwd].
+  - destruct (is_rst fr0); [exact HT|].
+    destruct (has_body fr0); [apply (T_from_old s); [exact HT | rpend_fwd_tac | uh_fwd_tac HT | uh_bwd_tac HT | run_fwd_tac | log_noread | offer_fwd]|].
+    destruct (has_trl fr0); [exact HT|].
+    destruct (md_bad fr0); [apply (T_from_old s); [exact HT | rpend_fwd_tac | uh_fwd_tac HT | uh_bwd_tac HT | run_fwd_tac | log_noread | offer_fwd]|].
+    apply (T_from_old s); [exact HT | rpend_fwd_tac | uh_app_fwd | | run_fwd_tac | log_noread | offer_fwd].
+    intros h k' P U. sproj. apply nth_app_new in P. destruct P as [P | (_ & ->)]; [exists k'; auto | simpl in U; discriminate U].
+Qed.
+
+Lemma T_hunregister s g kg : T s -> nth_error (hs s) g = Some kg -> T (add_log (set_h s g (hunregister kg)) [SvUnreg g]).
+Proof.
+  intros HT Hg. apply (T_from_old s); [exact HT | rpend_fwd_tac | | | run_fwd_tac | log_noread | offer_fwd].
+  - intros h k P U. sproj. destruct (Nat.eq_dec h g) as [->|Hne].
+    + rewrite Hg in P. inversion P; subst. eexists. split; [apply nth_upd_same; eapply nth_error_lt; eauto|]. simpl. auto.
+    + exists k. split; [apply nth_upd_fwd; auto | auto].
+  - intros h k' P U. sproj. apply nth_upd_cases in P. destruct P as [(-> & -> & _) | (_ & P)]; [exists kg; simpl in *; auto | exists k'; auto].
+Qed.
+
+(* a worker takes the request on offer *)
+Lemma T_offer s w f :
+  T s -> rd s = RdOffer f -> has_hdr f = true -> nth_error (wk s) w = Some WkIdle ->
+  T (start_unary (add_log (set_rd s RdRead) [SvJob w f]) w f).
+Proof.
+  intros [Tn Tr Tq] Erd Hh Hw. unfold start_unary. rewrite Hh. simpl negb. cbv iota.
+  assert (RW : forall p w' h', nth_error (wk s) w' = Some (WkRun h') -> nth_error (upd w p (wk s)) w' = Some (WkRun h')).
+  { intros p w' h' P. apply nth_upd_fwd; auto. intros ->. rewrite Hw in P. discriminate. }
+  assert (RP : forall p evs fr, rpend s fr ->
+                 wr s = WrWrite fr \/ (exists w', nth_error (upd w p (wk s)) w' = Some (WkHand fr)) \/ In (SvWrite fr) ((Server.log s ++ [SvJob w f]) ++ evs)).
+  { intros p evs fr [A | [(w' & A) | A]]; auto.
+    - right. left. exists w'. apply nth_upd_fwd; auto. intros ->. rewrite Hw in A. discriminate.
+    - right. right. apply in_or_app. left. apply in_or_app. auto. }
+  assert (BAD : forall fr', fid fr' = fid f ->
+            T (set_wk (add_log (set_rd s RdRead) [SvJob w f]) w (WkHand fr'))).
+  { intros fr' Hid. constructor; sproj.
+    - exact Tn.
+    - intros h k Hn U Hg. destruct (Tr _ _ Hn U Hg) as (w' & P). exists w'. apply RW. exact P.
+    - intros rq Hin Hd. in_log Hin. destruct (Tq _ Hin Hd) as [(fr0 & A & B) | [X | (fr & A & B)]].
+      + rewrite Erd in A. inversion A; subst fr0. right. right. exists fr'. split; [|congruence].
+        unfold rpend. sproj. right. left. exists w. apply nth_upd_same. eapply nth_error_lt; eauto.
+      + right. left. exact X.
+      + right. right. exists fr. split; auto. unfold rpend. sproj.
+        specialize (RP (WkHand fr') [] fr A). rewrite app_nil_r in RP. exact RP. }
+  destruct (md_bad f); [apply BAD; reflexivity|].
+  destruct (body_tok f <? 0); [apply BAD; reflexivity|].
+  constructor; sproj.
+  - intros h k P U. apply nth_app_new in P. destruct P as [P | (_ & ->)]; [eauto | left; reflexivity].
+  - intros h k P U Hg. apply nth_app_new in P. destruct P as [P | (-> & ->)].
+    + destruct (Tr _ _ P U Hg) as (w' & Q). exists w'. apply RW. exact Q.
+    + exists w. apply nth_upd_same. eapply nth_error_lt; eauto.
+  - intros rq Hin Hd. in_log Hin. destruct (Tq _ Hin Hd) as [(fr0 & A & B) | [(h & k & A & B & C & D) | (fr & A & B)]].
+    + rewrite Erd in A. inversion A; subst fr0. right. left. exists (length (hs s)), (new_unary f).
+      split; [apply nth_app_last | simpl; auto].
+    + right. left. exists h, k. split; [rewrite nth_error_app1; [exact A | eapply nth_error_lt; eauto] | auto].
+    + right. right. exists fr. split; auto. unfold rpend. sproj. apply RP. exact A.
+Qed.
+
+Lemma T_int s i s' : inv_hdr s -> sff s -> T s -> rule_of i s = Some s' -> T s'.
+Proof.
+  intros [_ Ihd] F HT H. destruct i; simpl in H.
+  all: try solve [ start_rule H; sff_tac F;
+                   (apply (T_from_old s); [exact HT | try rpend_fwd_tac | try (uh_fwd_tac HT) | try (uh_bwd_tac HT) | try run_fwd_tac | try log_noread | try offer_fwd]) ].
+  - (* r_rd_read *)
+    unfold r_rd_read in H. destruct (rd s) eqn:Erd; try discriminate.
+    destruct (Server.inbox s) as [|fr0 rest] eqn:Ei.
+    + destr_in H; inv_some H; sff_tac F.
+    + assert (T1 : dispatch fr0 <> DUnary -> T (add_log (set_inbox s rest) [SvRead fr0])).
+      { intros Hnu. apply (T_from_step s); [exact HT | rpend_fwd_tac | uh_fwd_tac HT | uh_bwd_tac HT | run_fwd_tac | log_ext | | offer_fwd].
+        sproj. intros rq Hin Hd. apply in_app_or in Hin. destruct Hin as [Hin | [Hin | []]]; [left; exact Hin|].
+        inversion Hin; subst. contradiction. }
+      destruct (dispatch fr0) eqn:Ed; inv_some H.
+      * apply T1. discriminate.
+      * apply (T_from_step s); [exact HT | rpend_fwd_tac | uh_fwd_tac HT | uh_bwd_tac HT | run_fwd_tac | log_ext | | ].
+        -- sproj. intros rq Hin Hd. apply in_app_or in Hin. destruct Hin as [Hin | [Hin | []]]; [left; exact Hin|].
+           inversion Hin; subst. right. exists rq. auto.
+        -- sproj. rewrite Erd. intros ? E. discriminate E.
+      * apply T_stream_dispatch; [unfold sff in *; exact F | apply T1; discriminate | sproj; exact Erd].
+  - (* r_rd_offer *)
+    unfold r_rd_offer in H. destruct (rd s) eqn:Erd; try discriminate.
+    destruct (find_idle (wk s) 0) as [w|] eqn:Ew; [|discriminate]. inv_some H.
+    destruct (find_idle_spec _ _ _ Ew) as (_ & Hw). rewrite Nat.sub_0_r in Hw.
+    apply T_offer; auto. apply dispatch_hdr. rewrite Ihd. discriminate.
+  - (* r_h_unreg *)
+    unfold r_h_unreg in H. destruct (nth_error (hs s) h) as [k|] eqn:Hn; [|discriminate].
+    destruct (h_pc k) eqn:Hpc; try discriminate. destruct (mu_free s); [|discriminate].
+    assert (T1 : T (set_h s h (hset_pc k HDead))).
+    { apply (T_from_old s); [exact HT | rpend_fwd_tac | uh_fwd_tac HT | uh_bwd_tac HT | run_fwd_tac | log_noread | offer_fwd]. }
+    destruct (find_reg _ _ _) as [g|]; [destruct (nth_error _ g) as [kg|] eqn:Hg|]; inv_some H; try exact T1.
+    apply T_hunregister; [exact T1 | exact Hg].
+Qed.
+
+Lemma finish_unary_keep l h f w p :
+  nth_error l w = Some p -> (forall g, p = WkRun g -> g <> h) -> nth_error (finish_unary l h f) w = Some p.
+Proof.
+  intros Hn Hp. unfold finish_unary. rewrite nth_error_map, Hn. simpl. destruct p; auto.
+  destruct (Nat.eqb_spec h0 h); auto. subst. exfalso. eapply Hp; eauto.
+Qed.
+
+Lemma finish_unary_hit l h f w : nth_error l w = Some (WkRun h) -> nth_error (finish_unary l h f) w = Some (WkHand f).
+Proof. intros Hn. unfold finish_unary. rewrite nth_error_map, Hn. simpl. rewrite Nat.eqb_refl. reflexivity. Qed.
+
+Lemma T_hstep f s h k o :
+  T s -> nth_error (hs s) h = Some k -> h_pc k = HGate -> pol_c01 f s h o = true -> T (hstep s h k o).
+Proof.
+  intros HT Hn Hg Hpol. unfold pol_c01 in Hpol. rewrite Hn in Hpol.
+  destruct (h_unary k) eqn:Hu.
+  - (* unary: the return *)
+    destruct o; try discriminate Hpol. destruct rep as [r|]; [|discriminate Hpol]. destruct e; try discriminate Hpol.
+    unfold hstep. rewrite Hu. destruct HT as [Tn Tr Tq]. constructor; sproj.
+    + intros h0 k0 P U. apply nth_upd_cases in P. destruct P as [(-> & -> & _) | (_ & P)]; [right; reflexivity | eauto].
+    + intros h0 k0 P U G. apply nth_upd_cases in P. destruct P as [(-> & -> & _) | (Hne & P)]; [simpl in G; discriminate G|].
+      destruct (Tr _ _ P U G) as (w & Q). exists w. apply finish_unary_keep; auto. intros g E. inversion E; subst. auto.
+    + intros rq Hin Hd. in_log Hin. destruct (Tq _ Hin Hd) as [(fr0 & A & B) | [(h0 & k0 & A & B & C & D) | (fr & A & B)]].
+      * left. eauto.
+      * destruct (Nat.eq_dec h0 h) as [->|Hne].
+        -- rewrite Hn in A. inversion A; subst k0. destruct (Tr _ _ Hn Hu Hg) as (w & Q).
+           right. right. exists (unary_reply k (Some r) HNil). split; [|exact C].
+           unfold rpend. sproj. right. left. exists w. apply finish_unary_hit. exact Q.
+        -- right. left. exists h0, k0. split; [apply nth_upd_fwd; auto | auto].
+      * right. right. exists fr. split; auto. unfold rpend in *. sproj. destruct A as [A | [(w & A) | A]]; auto.
+        -- right. left. exists w. apply finish_unary_keep; auto. intros g E. discriminate E.
+        -- right. right. apply in_or_app. auto.
+  - (* a stream handler: only its own entry and the log (no read) change *)
+    destruct (hstep_shape s h k o Hn Hg) as (k' & Hhs & Hu' & _ & _ & _ & Hq & _).
+    destruct (hstep_log s h k o) as (evs & Elog & Hev).
+    destruct (hstep_rd_crashed s h k o) as [Erd _].
+    assert (Ewk : wk (hstep s h k o) = wk s /\ wr (hstep s h k o) = wr s).
+    { unfold hstep. rewrite Hu. destruct o; try destruct (h_hsent k); sproj; auto. }
+    destruct Ewk as [Ewk Ewr].
+    apply (T_from_old s); [exact HT | | | | | | ].
+    + intros fr [A | [(w & A) | A]]; unfold rpend; rewrite Ewk, Ewr, Elog.
+      * left. exact A.
+      * right. left. exists w. exact A.
+      * right. right. apply in_or_app. left. exact A.
+    + intros h0 k0 P U. rewrite Hhs. destruct (Nat.eq_dec h0 h) as [->|Hne]; [congruence|].
+      exists k0. split; [apply nth_upd_fwd; auto | auto].
+    + intros h0 k0 P U. rewrite Hhs in P. apply nth_upd_cases in P. destruct P as [(-> & -> & _) | (_ & P)]; [congruence | eauto].
+    + intros w h0 P. rewrite Ewk. exact P.
+    + exists evs. split; auto. clear - Hev. induction evs as [|e evs IH]; auto.
+      simpl. pose proof (Hev e (or_introl eq_refl)) as X. destruct e; try contradiction; apply IH; intros; apply Hev; right; auto.
+    + rewrite Erd. auto.
+Qed.
+
+Lemma T_ext f s a : T s -> pol_ok (pol_c01 f) s (Server.LExt a) = true -> env_ok a = true -> T (Server.ext s a).
+Proof.
+  intros HT Hpol Ha. destruct a; try discriminate Ha; simpl.
+  - apply (T_from_old s); [exact HT | rpend_fwd_tac | uh_fwd_tac HT | uh_bwd_tac HT | run_fwd_tac | log_noread | offer_fwd].
+  - destruct (nth_error (hs s) h) as [k|] eqn:Hn; [|exact HT]. destruct (h_pc k) eqn:Hg; try exact HT.
+    eapply T_hstep; eauto.
+Qed.
+
+Lemma T_init nw : T (init_n nw).
+Proof.
+  constructor; simpl.
+  - intros h k P. destruct h; discriminate.
+  - intros h k P. destruct h; discriminate.
+  - intros rq [].
+Qed.
+
+(* runs of the server in which no fault is injected and unary handlers obey the policy *)
+Definition lbl_ok (l : Server.label) : bool := match l with Server.LExt a => env_ok a | Server.LInt _ => true end.
+
+Lemma FT_run f ls : forall v v', inv_hdr v -> sff v -> T v ->
+  srun_pol (pol_c01 f) v ls = Some v' -> forallb lbl_ok ls = true -> inv_hdr v' /\ sff v' /\ T v'.
+Proof.
+  induction ls as [|l ls IH]; simpl; intros v v' Ih F HT H Hl.
+  - inversion H; subst; auto.
+  - destruct (pol_ok (pol_c01 f) v l) eqn:Hp; [|discriminate].
+    destruct (Server.lstep v l) as [v1|] eqn:E; [|discriminate].
+    apply andb_prop in Hl. destruct Hl as [Hl1 Hl2].
+    apply (IH v1); auto; destruct l as [a|n]; simpl in E.
+    + inversion E; subst. apply inv_hdr_ext; auto.
+    + destruct (nth_error (Server.rules v) n) as [r|] eqn:En; [|discriminate].
+      apply nth_error_In in En. apply rules_cases in En. destruct En as [i ->]. eapply inv_hdr_int; eauto.
+    + inversion E; subst. apply sff_ext; auto.
+    + destruct (nth_error (Server.rules v) n) as [r|] eqn:En; [|discriminate].
+      apply nth_error_In in En. apply rules_cases in En. destruct En as [i ->]. eapply sff_int; eauto.
+    + inversion E; subst. eapply T_ext; eauto.
+    + destruct (nth_error (Server.rules v) n) as [r|] eqn:En; [|discriminate].
+      apply nth_error_In in En. apply rules_cases in En. destruct En as [i ->]. eapply T_int; eauto.
+Qed.
